@@ -296,7 +296,8 @@ struct PrologEpilogInfo {
       if (n == 1) {
         pairs[pair_count].ids[1] = uint8_t(Reg::kIdBad);
         pairs[pair_count].offset = uint16_t(offset);
-        offset += slot_size * 2;
+        // A single register occupies one 16-byte aligned slot (this is what FuncFrame::finalize() reserves).
+        offset += Support::align_up<uint32_t>(slot_size, 16u);
         pair_count++;
       }
 
